@@ -262,6 +262,11 @@ class SqliteStorage(AbstractStorage):
         # and SQLITE_LIMIT_VARIABLE_NUMBER under Windows.
         # See: https://github.com/coleifer/peewee/issues/948
 
+        # A batch that arrives a while after the last commit is committed as a
+        # whole before returning (the first upsert below would otherwise commit
+        # on its own and restart the clock for the rest of the batch)
+        overdue = (datetime.now() - self.last_commit) > timedelta(seconds=10)
+
         # First, upsert events with id's set
         events_upsert = [e for e in events if e.id is not None]
         for e in events_upsert:
@@ -280,6 +285,8 @@ class SqliteStorage(AbstractStorage):
         )
         self.conn.executemany(query, event_rows)
         self.conditional_commit(len(event_rows))
+        if overdue:
+            self.commit()
 
     def replace_last(self, bucket_id, event):
         starttime, endtime = _event_to_microseconds(event)
